@@ -132,6 +132,28 @@ Definition is_variable_claim (f : finding) : bool :=
   | _ => false
   end.
 
+(* Well-formedness observed on every dumped cfg (a hypothesis of C09_noninterference): an
+   assignment whose target has the type of an input or output signal targets a declared
+   input/output signal by its exact name (signals carry no SSA version). *)
+Definition exported_type_b (t : option vtype) : bool :=
+  match t with Some TSigIn | Some TSigOut => true | _ => false end.
+Definition exported_targets_declared (g : cfg) : bool :=
+  forallb (fun b => forallb (fun s =>
+      match s with
+      | SSubst _ x _ _ _ (Some _) =>
+        implb (exported_type_b (type_of (c_decls g) x)) (vmem x (exported_signals g))
+      | _ => true
+      end) (b_stmts b)) (c_blocks g).
+
+(* ... and `<==` only assigns signals. *)
+Definition csig_on_signals (g : cfg) : bool :=
+  forallb (fun b => forallb (fun s =>
+      match s with
+      | SSubst _ _ OpCSig _ _ st => match st with Some t => is_signal t | None => true end
+      | _ => true
+      end) (b_stmts b)) (c_blocks g).
+Definition ssa_wf_b (g : cfg) : bool := exported_targets_declared g && csig_on_signals g.
+
 (* ---------- observation helpers for the engine ---------- *)
 
 Definition universe (g : cfg) : list vname :=
